@@ -74,9 +74,11 @@ def run(tier, replay=None):
     binp = build_harness()
     os.makedirs(os.path.join(VERIF, "work", "agent_wal", "scratch"), exist_ok=True)
     cases = []
+    htier = tier
     if replay:
         rp = json.load(open(replay))["case"]
         cases = rp.get("model_cases", [])
+        htier = rp.get("tier", tier)
     else:
         cfg = "MC_C11_quick.cfg" if tier == "quick" else "MC_C11_thorough.cfg"
         res = tlc("MC_C11", cfg, workers=4, timeout=3600, tags=("CASE",))
@@ -99,7 +101,7 @@ def run(tier, replay=None):
     predicted_bad = [c for c in cases if "nonprefix" in (c["pred"]["bytes"], c["pred"]["fs"])]
     cin = write_ndjson(os.path.join(WORK, "c11_cases.ndjson"), cases)
     trace = os.path.join(WORK, "c11_trace.ndjson")
-    summ = json.loads(harness(binp, ["c11", cin if cases else "-", trace, str(ck.seed), tier], timeout=6 * 3600).strip().splitlines()[-1])
+    summ = json.loads(harness(binp, ["c11", cin if cases else "-", trace, str(ck.seed), htier], timeout=6 * 3600).strip().splitlines()[-1])
     events = read_ndjson(trace)
     tpath = os.path.join(WORK, "c11.tlc.ndjson")
     index = sanitize(events, tpath)
@@ -168,7 +170,7 @@ def run(tier, replay=None):
         got = e.get(field) if field else None
         desc = (f"{len(items)} edited log(s); first: log {e['log']}, edit {json.dumps(e['edit'])} ({e.get('what')}): {entry} returned "
                 f"{json.dumps(got)[:500]} - a successful result that is not a prefix (identity and content) of the committed history")
-        ck.violation(key, desc, {"model_cases": [cases[e["case"]]] if e["case"] >= 0 and e["case"] < len(cases) else [],
+        ck.violation(key, desc, {"tier": ck.tier, "model_cases": [cases[e["case"]]] if e["case"] >= 0 and e["case"] < len(cases) else [],
                                  "edit": e["edit"], "log": e["log"], "entry_point": entry, "result": got, "count": len(items),
                                  "trace": keep})
     # observations that are not violations of the property as stated
